@@ -13,6 +13,7 @@ from spec_classes.utils.method_builder import MethodBuilder
 from spec_classes.utils.mutation import (
     mutate_attr,
     mutate_value,
+    peek_attr,
     prepare_attr_value,
     unfrozen,
 )
@@ -124,7 +125,7 @@ class UpdateAttrMethod(AttrMethodDescriptor):
             attr_spec,
             self,
             _new_value=mutate_value(
-                old_value=Proxy(lambda: getattr(self, attr_spec.name, MISSING)),
+                old_value=Proxy(lambda: peek_attr(self, attr_spec.name, _inplace)),
                 new_value=_new_value,
                 constructor=attr_spec.constructor,
                 expected_type=attr_spec.type,
@@ -206,7 +207,7 @@ class TransformAttrMethod(AttrMethodDescriptor):
             attr_spec,
             self,
             _new_value=mutate_value(
-                old_value=Proxy(lambda: getattr(self, attr_spec.name, MISSING)),
+                old_value=Proxy(lambda: peek_attr(self, attr_spec.name, _inplace)),
                 transform=_transform,
                 constructor=attr_spec.constructor,
                 expected_type=attr_spec.type,
